@@ -2144,6 +2144,80 @@ func removesAtParam(p *Program, fn *ssa.Function, depth int) int {
 	return out
 }
 
+// delegatesToHandleRemoval: fn has an integer parameter and no *Paragraph parameter, and calls a
+// module function with a *Paragraph argument that splices Body.Elements at a position selected by
+// comparing elements with that argument.
+func delegatesToHandleRemoval(p *Program, fn *ssa.Function) *ssa.Function {
+	hasInt := false
+	for _, par := range fn.Params[1:] {
+		if b, ok := par.Type().Underlying().(*types.Basic); ok && b.Info()&types.IsInteger != 0 {
+			hasInt = true
+		}
+		if typeIs(par.Type(), pkgDoc, "Paragraph") {
+			return nil
+		}
+	}
+	if !hasInt {
+		return nil
+	}
+	var out *ssa.Function
+	allInstrs(fn, func(in ssa.Instruction) {
+		c, ok := in.(*ssa.Call)
+		if !ok {
+			return
+		}
+		cal := staticCallee(c)
+		if cal == nil || !p.inModule(cal) || cal == fn {
+			return
+		}
+		for i, a := range c.Call.Args {
+			if !typeIs(a.Type(), pkgDoc, "Paragraph") || i >= len(cal.Params) {
+				continue
+			}
+			par := cal.Params[i]
+			// the callee compares body elements with the handle and splices the body
+			cmp, splice := false, false
+			for _, g := range withClosures(cal) {
+				allInstrs(g, func(in2 ssa.Instruction) {
+					switch y := in2.(type) {
+					case *ssa.BinOp:
+						if (y.Op == token.EQL || y.Op == token.NEQ) && (stripIface(y.X) == ssa.Value(par) || stripIface(y.Y) == ssa.Value(par)) {
+							cmp = true
+						}
+					case *ssa.Slice:
+						if isBodyElements(p, y.X) && y.High != nil && y.Low == nil {
+							splice = true
+						}
+					}
+				})
+			}
+			if cmp && splice {
+				out = cal
+			}
+		}
+	})
+	return out
+}
+
+// stripIface: the value behind interface conversions, assertions and type changes.
+func stripIface(v ssa.Value) ssa.Value {
+	for i := 0; i < 6; i++ {
+		switch x := v.(type) {
+		case *ssa.MakeInterface:
+			v = x.X
+		case *ssa.ChangeInterface:
+			v = x.X
+		case *ssa.ChangeType:
+			v = x.X
+		case *ssa.TypeAssert:
+			v = x.X
+		default:
+			return v
+		}
+	}
+	return v
+}
+
 func ruleRemoveTyped(r *Run) {
 	p := r.P
 	n := 0
@@ -2178,6 +2252,16 @@ func ruleRemoveTyped(r *Run) {
 			}
 		})
 		if sites == 0 {
+			// an index-keyed removal that hands a *Paragraph to another removal of this family: the
+			// position is then found again by identity (first element that IS the handle), which is the
+			// requested position only if no paragraph object sits in the body twice — Body.AddElement
+			// accepts the same object any number of times.
+			if del := delegatesToHandleRemoval(p, fn); del != nil {
+				n++
+				r.Check("remove-typed", shortName(fn), fn.Pos(), false,
+					fmt.Sprintf("%s is keyed by a paragraph index but delegates to %s, which removes the FIRST element identical to the handle: when one paragraph object occurs at two positions the element at the requested index stays and another one disappears", shortName(fn), shortName(del)))
+				continue
+			}
 			r.Undecided("remove-typed", shortName(fn), fn.Pos(), "no removal of a body element found in "+shortName(fn))
 			continue
 		}
